@@ -244,7 +244,10 @@ func c03Scenario(c *Ctx, idx int, r *Rng) {
 		cached := refMap(w.dir, "refs/remotes/"+rm.name+"/")
 		actual := refMap(remote, "refs/heads/")
 		var args []string
-		kind := r.Intn(10)
+		kind := r.Intn(11)
+		if kind == 10 {
+			kind = 8
+		}
 		var out string
 		var code int
 		switch {
@@ -258,6 +261,22 @@ func c03Scenario(c *Ctx, idx int, r *Rng) {
 			args = []string{"push", rm.name, "--all"}
 		case kind < 8:
 			args = []string{"push", rm.name, "--tags"}
+		case kind < 9 && len(branches) > 1 && len(actual) > 0 && r.Chance(75):
+			// ONE push that deletes a ref on the remote and updates or creates others: the hook reads one line
+			// per ref, deletions (all-zero local id) among them, in the remote's name order with new refs last
+			var dels []string
+			for nme := range actual {
+				dels = append(dels, nme)
+			}
+			sort.Strings(dels)
+			args = []string{"push", rm.name}
+			if len(dels) > 0 {
+				args = append(args, ":"+Pick(r, dels))
+				c.R.Count("push.kind.delete-and-update")
+			}
+			for k := 0; k < 1+r.Intn(2); k++ {
+				args = append(args, Pick(r, branches))
+			}
 		case kind < 9 && len(branches) > 1:
 			args = []string{"push", rm.name, branches[0], branches[len(branches)-1]}
 		default:
@@ -627,6 +646,7 @@ func c03(c *Ctx) {
 		}(i, rs)
 	}
 	wg.Wait()
+	c03PrePushParser(c, r)
 	model, err := c.Or.Ask(c03ModelLines)
 	if err != nil {
 		c.R.Add(Finding{Kind: "diff", What: "oracle process failed: " + err.Error(), Broken: "corr.C03.exclusion"})
@@ -635,6 +655,111 @@ func c03(c *Ctx) {
 	for i := range c03ModelLines {
 		if model[i] != c03ModelImpl[i] {
 			c.R.Add(Finding{Kind: "diff", What: "exclusion set: harness mirror and Lean model disagree", Case: c03ModelLines[i], Impl: c03ModelImpl[i], Model: model[i], Broken: "corr.C03.exclusion"})
+		}
+	}
+}
+
+// c03PrePushParser: the hook's stdin parser (commands.prePushRefs, reached through the hidden
+// `verif-prepush-refs` command of the verif build) against PrePush.parse on generated hook inputs:
+// created / updated / deleted refs in every order, blank lines, stray white space, short and long lines.
+func c03PrePushParser(c *Ctx, r *Rng) {
+	dir := filepath.Join(c.Work, "c03-prepush")
+	if gitInit(dir) != nil {
+		return
+	}
+	defer os.RemoveAll(dir)
+	n := c.N(300, 6000)
+	hexid := func(k int) string {
+		const d = "0123456789abcdef"
+		b := make([]byte, k)
+		for i := range b {
+			b[i] = d[r.Intn(16)]
+		}
+		return string(b)
+	}
+	refs := []string{"refs/heads/main", "refs/heads/aaa-old", "refs/heads/zzz", "refs/heads/feature/x", "refs/tags/v1", "refs/heads/ünï", "refs/remotes/origin/x", "HEAD", "refs/notes/commits", "refs/heads/"}
+	var mlines, mimpl, mcase []string
+	for i := 0; i < n; i++ {
+		var lines []string
+		k := 1 + r.Intn(5)
+		for j := 0; j < k; j++ {
+			zero := Pick(r, []string{strings.Repeat("0", 40), strings.Repeat("0", 40), strings.Repeat("0", 64)})
+			switch r.Intn(12) {
+			case 0, 1, 2: // a deletion
+				lines = append(lines, fmt.Sprintf("(delete) %s %s %s", zero, Pick(r, refs), hexid(40)))
+				c.R.Count("prepush.line.delete")
+			case 3, 4, 5, 6: // an update
+				lines = append(lines, fmt.Sprintf("%s %s %s %s", Pick(r, refs), hexid(40), Pick(r, refs), hexid(40)))
+				c.R.Count("prepush.line.update")
+			case 7: // a new ref
+				lines = append(lines, fmt.Sprintf("%s %s %s %s", Pick(r, refs), hexid(Pick(r, []int{40, 64})), Pick(r, refs), zero))
+				c.R.Count("prepush.line.create")
+			case 8:
+				lines = append(lines, Pick(r, []string{"", " ", "\t"}))
+			case 9: // stray white space around / CR at the end
+				lines = append(lines, Pick(r, []string{" ", "\t", ""})+fmt.Sprintf("%s %s %s %s", Pick(r, refs), hexid(40), Pick(r, refs), hexid(40))+Pick(r, []string{" ", "\r", "\t ", ""}))
+			case 10: // not quite a zero id / short and long lines / doubled blanks
+				lines = append(lines, Pick(r, []string{
+					fmt.Sprintf("(delete) %s %s %s", strings.Repeat("0", Pick(r, []int{39, 41, 1, 63})), Pick(r, refs), hexid(40)),
+					fmt.Sprintf("%s %s", Pick(r, refs), hexid(40)),
+					fmt.Sprintf("%s", Pick(r, refs)),
+					fmt.Sprintf("%s %s %s %s extra words", Pick(r, refs), hexid(40), Pick(r, refs), hexid(40)),
+					fmt.Sprintf("%s  %s %s %s", Pick(r, refs), hexid(40), Pick(r, refs), hexid(40)),
+					fmt.Sprintf("%s %s %s %s", Pick(r, refs), strings.Repeat("0", 39)+"1", Pick(r, refs), hexid(40))}))
+			default:
+				lines = append(lines, fmt.Sprintf("%s %s %s %s", Pick(r, refs), hexid(40), Pick(r, refs), zero))
+			}
+		}
+		in := strings.Join(lines, "\n")
+		if r.Chance(80) {
+			in += "\n"
+		}
+		out, code := runInStdin(dir, in, c.Lfs, "verif-prepush-refs", "origin")
+		enc := "C03 prepush " + hx([]byte(in))
+		c.R.Eval(enc, strings.Contains(in, "(delete)"))
+		if code != 0 {
+			c.R.Add(Finding{Kind: "diff", What: "verif-prepush-refs failed", Case: enc, Impl: clip(out, 200), Broken: "corr.C03.prepush"})
+			continue
+		}
+		var got []string
+		for _, l := range strings.Split(strings.TrimRight(out, "\n"), "\n") {
+			if l == "" && out == "" {
+				continue
+			}
+			f := strings.Split(l, " ")
+			for len(f) < 4 {
+				f = append(f, "")
+			}
+			got = append(got, hexOrDash(f[0])+"/"+hexOrDash(f[1])+"/"+hexOrDash(f[2])+"/"+hexOrDash(f[3]))
+		}
+		g := strings.Join(got, ";")
+		if out == "" {
+			g = "-"
+		}
+		mlines = append(mlines, enc)
+		mimpl = append(mimpl, g)
+		mcase = append(mcase, enc)
+		// the property's side of it, on the implementation alone: every line with four blank-free fields and a
+		// non-zero local id must come out as one update
+		want := 0
+		for _, l := range lines {
+			f := strings.Fields(l)
+			if len(f) >= 2 && strings.Trim(f[1], "0") != "" && !strings.Contains(strings.TrimSpace(l), "  ") {
+				want++
+			}
+		}
+		if want > len(got) || (out == "" && want > 0) {
+			c.R.Add(Finding{Kind: "oracle", What: "the pre-push hook drops a ref update of the push (a created or updated ref is not scanned)", Case: enc, Impl: fmt.Sprintf("%d of %d updates: %q", len(got), want, clip(out, 300))})
+		}
+	}
+	model, err := c.Or.Ask(mlines)
+	if err != nil {
+		c.R.Add(Finding{Kind: "diff", What: "oracle process failed: " + err.Error(), Broken: "corr.C03.prepush"})
+		return
+	}
+	for i := range mlines {
+		if model[i] != mimpl[i] {
+			c.R.Add(Finding{Kind: "diff", What: "pre-push input parser: model and implementation disagree", Case: mcase[i], Impl: mimpl[i], Model: model[i], Broken: "corr.C03.prepush"})
 		}
 	}
 }
